@@ -133,7 +133,7 @@ def eta():
                 e = max(e, s)
     return float(e) * 1.0001
 
-BUDGET_CODES = 3 + 0.5 - 0.03       # 8 bit: floor(3.825) = 3 codes; the re-encoded value may be 3.5 away before rounding; 0.03: C08's decode/encode slack (0.02) + C02's
+BUDGET_CODES = 3 + 0.5 - 0.045      # 8 bit: floor(3.825) = 3 codes; the re-encoded value may be 3.5 away before rounding; 0.045: C08's decode/encode bound (0.04 codes pre-rounding) + C02's 1e-6 * 2^n + margin
 
 class Pipeline:
     """M(x0) - x0 for one (transfer, primaries) pair, assembled from one-dimensional facts about the curve pair and the
@@ -315,7 +315,7 @@ def _work(args):
 
 def numeric_budget(ck, tier, curves, prims):
     """one obligation per (transfer, primaries) pair expected to close: max over matrices / ranges / planes of the
-    re-encoded change, in codes at 8 bit, stays below 3.47 for every decoded in-gamut pixel"""
+    re-encoded change, in codes at 8 bit, stays below 3.455 for every decoded in-gamut pixel"""
     if tier == 'quick':
         pairs = [('BT1886', 'BT709'), ('SRGB', 'BT2020'), ('HybridLogGamma', 'BT2020'), ('Logarithmic100', 'P3DCI'), ('BT470M', 'BT470M')]
     else:
